@@ -6,6 +6,7 @@
 package c03
 
 import (
+	"github.com/ossrs/go-oryx-lib/amf0"
 	"bytes"
 	"fmt"
 	"io"
@@ -116,6 +117,33 @@ func gen(g *kernel.Rng, seed uint64, tier string) *kernel.Plan {
 		}
 	case 0:
 		p.Variant = "stream"
+		if g.Bool(0.04) {
+			// a long pipeline: hundreds of requests outstanding at once, answered
+			// afterwards (in order, reversed, or every other one first)
+			n := g.Range(130, 330)
+			for i := 0; i < n; i++ {
+				p.Ops = append(p.Ops, kernel.Op{K: "createStream", T: 0, N: []int64{int64(8 + 4*i), 0, 0}})
+			}
+			p.Ops = append(p.Ops, kernel.Op{K: "sync", T: 1, N: []int64{int64(n)}})
+			order := g.Intn(3)
+			for k := 0; k < n; k++ {
+				i := k
+				switch order {
+				case 1:
+					i = n - 1 - k
+				case 2:
+					if k < (n+1)/2 {
+						i = 2 * k
+					} else {
+						i = 2*(k-(n+1)/2) + 1
+					}
+				}
+				p.Ops = append(p.Ops, kernel.Op{K: "createStreamRes", T: 1, N: []int64{int64(8 + 4*i), int64(g.Range(0, 20)), 0, 0, 0}})
+			}
+			p.Tape = kernel.GenTape(g, g.Range(0, 60), 0.25)
+			p.TapeSeed = g.U64() | 1
+			return p
+		}
 		n := g.Range(1, 25)
 		recvd := [2]int{}
 		for i := 0; i < n; i++ {
@@ -242,6 +270,7 @@ func run(p *kernel.Plan) (res *kernel.Result) {
 	sides := [2]*side{{}, {}}
 	var brk int32
 	var sendFail string
+	lateUpdates := 0
 	s := rtmpx.NewSession(p, kernel.ModePlain, 300000)
 	idx := func(e *rtmpx.End) int {
 		if e == s.A {
@@ -337,6 +366,13 @@ func run(p *kernel.Plan) (res *kernel.Result) {
 		pkt, kind := rtmpx.BuildPacket(op)
 		if pkt == nil {
 			return false
+		}
+		if cs := rtmpx.LastContainers(); len(cs) > 1 && i%2 == 0 {
+			// the application asks for the size, then updates a nested value in
+			// place before it sends the packet
+			pkt.Size()
+			cs[len(cs)-1]("late", amf0.NewString("set after Size()"))
+			lateUpdates++
 		}
 		for _, tr := range rtmpx.Trees(pkt) {
 			if m := rtmpx.TreeOK(tr); m != "" {
@@ -505,6 +541,7 @@ func run(p *kernel.Plan) (res *kernel.Result) {
 	if brk != 0 {
 		res.Stat("sync_deadlocks_broken", 1)
 	}
+	res.Stat("packets_updated_in_place_after_Size", int64(lateUpdates))
 	for d := 0; d < 2; d++ {
 		if !evalDir(res, p, sides[d], sides[1-d], []string{"A>B", "B>A"}[d]) {
 			return res
